@@ -70,10 +70,10 @@ structure LevelInv (ts : TS) (npre nsamp : Int) (sg : Bool) (e0 : Nat) (G : List
 set_option maxHeartbeats 1600000 in
 /-- one block preserves the level invariant -/
 theorem stepChan_level_inv {ts : TS} {npre nsamp : Int} {sg : Bool} {e0 : Nat} {G : List Nat} {f0 : Int} {c : Chan}
-    {trigs : List Int} {k : Nat} {zt : ZT} {seg : List Nat} {per : Int} {c1 : Chan} {tr : List Int}
+    {trigs : List Int} {k : Nat} {zt : ZT} {seg : List Nat} {t0 per : Int} {c1 : Chan} {tr : List Int}
     (hv : 3 ≤ npre ∧ npre < nsamp) (hem : ts.edgeMulti = false) (hlevel : ts.level = true)
     (hinv : LevelInv ts npre nsamp sg e0 G f0 c trigs k)
-    (h : stepChan zt c seg (f0 + G.length) per sg = some (c1, tr)) :
+    (h : stepChan zt c seg (f0 + G.length) t0 per sg = some (c1, tr)) :
     ∃ k', LevelInv ts npre nsamp sg e0 (G ++ seg) f0 c1 (trigs ++ tr) k' := by
   obtain ⟨hk, hbuf, hcfg, hcov, hbef, hlast, hret⟩ := hinv
   obtain ⟨hts, hnpre, hnsamp, hsync, _⟩ := hcfg
@@ -84,7 +84,7 @@ theorem stepChan_level_inv {ts : TS} {npre nsamp : Int} {sg : Bool} {e0 : Nat} {
   simp only [Option.some.injEq, Prod.mk.injEq] at h
   obtain ⟨hc1, htr⟩ := h
   -- the channel after append
-  generalize hca : append c seg (f0 + ↑G.length) 0 per sg = ca at htd
+  generalize hca : append c seg (f0 + ↑G.length) t0 per sg = ca at htd
   have ca_buf : ca.buf = (G ++ seg).drop k := by
     rw [← hca]; simp [append, hbuf, List.drop_append_of_le_length hk]
   have ca_first : ca.first = f0 + k := by
@@ -238,17 +238,17 @@ theorem stepChan_level_inv {ts : TS} {npre nsamp : Int} {sg : Bool} {e0 : Nat} {
     · right; rw [hGl]; exact h0
 
 /-- any number of blocks of any lengths -/
-theorem runChan_level_inv {ts : TS} {npre nsamp : Int} {sg : Bool} {e0 : Nat} {f0 : Int} {zt : ZT} {per : Int}
+theorem runChan_level_inv {ts : TS} {npre nsamp : Int} {sg : Bool} {e0 : Nat} {f0 : Int} {zt : ZT} {tp : Nat → Int × Int}
     (hv : 3 ≤ npre ∧ npre < nsamp) (hem : ts.edgeMulti = false) (hlevel : ts.level = true) :
-    ∀ (segs : List (List Nat)) (G : List Nat) (c : Chan) (trigs : List Int) (k : Nat) (c' : Chan) (tr : List Int),
+    ∀ (segs : List (List Nat)) (n : Nat) (G : List Nat) (c : Chan) (trigs : List Int) (k : Nat) (c' : Chan) (tr : List Int),
       LevelInv ts npre nsamp sg e0 G f0 c trigs k →
-      runChan zt per sg c (f0 + G.length) segs = some (c', tr) →
+      runChan zt tp sg n c (f0 + G.length) segs = some (c', tr) →
       ∃ k', LevelInv ts npre nsamp sg e0 (G ++ segs.flatten) f0 c' (trigs ++ tr) k'
-  | [], G, c, trigs, k, c', tr, hinv, h => by
+  | [], n, G, c, trigs, k, c', tr, hinv, h => by
     simp only [runChan, Option.some.injEq, Prod.mk.injEq] at h
     obtain ⟨rfl, rfl⟩ := h
     exact ⟨k, by simpa using hinv⟩
-  | seg :: segs, G, c, trigs, k, c', tr, hinv, h => by
+  | seg :: segs, n, G, c, trigs, k, c', tr, hinv, h => by
     unfold runChan at h
     split at h
     · simp at h
@@ -261,7 +261,7 @@ theorem runChan_level_inv {ts : TS} {npre nsamp : Int} {sg : Bool} {e0 : Nat} {f
     obtain ⟨k1, hinv1⟩ := stepChan_level_inv hv hem hlevel hinv hstep
     have hlen : f0 + (G.length : Int) + (seg.length : Int) = f0 + ((G ++ seg).length : Int) := by simp; omega
     rw [hlen] at hrun
-    obtain ⟨k2, hinv2⟩ := runChan_level_inv hv hem hlevel segs (G ++ seg) c1 (trigs ++ tr1) k1 c2 tr2 hinv1 hrun
+    obtain ⟨k2, hinv2⟩ := runChan_level_inv hv hem hlevel segs (n + 1) (G ++ seg) c1 (trigs ++ tr1) k1 c2 tr2 hinv1 hrun
     refine ⟨k2, ?_⟩
     simpa [List.append_assoc] using hinv2
 
